@@ -133,13 +133,13 @@ def f_regex(a):
         q, walk = (M["I"][0][0] if M["I"] else None), []
         k = 0
         while q is not None and len(walk) < a["long"] + 15:
-            outs = sorted([r for r in M["arcs"] if r[0] == q], key=lambda r: (r[1], r[2]))
+            outs = sorted([x for x in M["arcs"] if x[0] == q], key=lambda x: (x[1], x[2]))
             if not outs or (len(walk) >= a["long"] and q in finals):
                 break
-            r = outs[(k * 7 + len(walk)) % len(outs)]
+            arc = outs[(k * 7 + len(walk)) % len(outs)]
             k += 1
-            walk.append(r[1])
-            q = r[2]
+            walk.append(arc[1])
+            q = arc[2]
         if a.get("spoil") and walk:
             walk[len(walk) // 2] = tname(cs[0]) if walk[len(walk) // 2] != tname(cs[0]) else tname(cs[-1])
         from gops import unt
